@@ -73,16 +73,23 @@ QName(path) ==
     ELSE IF Len(path) = 1 THEN SegChars(path[1])
     ELSE SegChars(path[1]) \o <<".">> \o QName(Tail(path))
 
-(* regular expression search for the modelled family *)
-CharMatch(p, c) == p = "." \/ p = c
-MatchAt(lit, s, i) ==      \* lit matches s starting at position i (1-based)
+(* regular expression search for the modelled family.  Every pattern is an *)
+(* INDEPENDENT expression: the inline flag "(?i)" of one pattern (pat.ci)  *)
+(* makes that pattern, and no other, case-insensitive.                      *)
+Lower(ch) ==
+    CASE ch = "A" -> "a" [] ch = "B" -> "b" [] ch = "C" -> "c" [] ch = "D" -> "d"
+      [] ch = "E" -> "e" [] ch = "I" -> "i" [] ch = "L" -> "l" [] ch = "M" -> "m"
+      [] ch = "N" -> "n" [] ch = "O" -> "o" [] ch = "R" -> "r" [] ch = "V" -> "v"
+      [] ch = "X" -> "x" [] ch = "Y" -> "y" [] OTHER -> ch
+CharMatch(p, c, ci) == p = "." \/ p = c \/ (ci /\ Lower(p) = Lower(c))
+MatchAt(lit, s, i, ci) ==  \* lit matches s starting at position i (1-based)
     /\ i + Len(lit) - 1 <= Len(s)
-    /\ \A j \in 1..Len(lit) : CharMatch(lit[j], s[i + j - 1])
+    /\ \A j \in 1..Len(lit) : CharMatch(lit[j], s[i + j - 1], ci)
 Search(pat, s) ==
-    CASE pat.anchor = "none"  -> \E i \in 1..(Len(s) + 1) : MatchAt(pat.lit, s, i)
-      [] pat.anchor = "start" -> MatchAt(pat.lit, s, 1)
+    CASE pat.anchor = "none"  -> \E i \in 1..(Len(s) + 1) : MatchAt(pat.lit, s, i, pat.ci)
+      [] pat.anchor = "start" -> MatchAt(pat.lit, s, 1, pat.ci)
       [] pat.anchor = "end"   -> Len(s) >= Len(pat.lit)
-                                 /\ MatchAt(pat.lit, s, Len(s) - Len(pat.lit) + 1)
+                                 /\ MatchAt(pat.lit, s, Len(s) - Len(pat.lit) + 1, pat.ci)
 AnyMatch(s, pats) == \E i \in DOMAIN pats : Search(pats[i], s)
 
 (* structure *)
